@@ -99,7 +99,7 @@ PARSE_FACTS = {
 
 PROPS = {}
 
-GEN_OPS = ("GNLI ", "GNC ", "GSPLIT ", "GFP ", "GSL ")
+GEN_OPS = ("GNLI ", "GNC ", "GSPLIT ", "GFP ", "GSL ", "GSCAN ")
 
 
 def with_gen(cmp):
